@@ -5,9 +5,12 @@
 //! and then feeds the parser
 //!   (1) the intact encoding,
 //!   (2) EVERY truncation of it (all lengths up to 4 KiB, then every 512-byte boundary +-1),
-//!   (3) a seeded list of damaged copies (substitute 0x00/0xFF/bit flips/random, maximise
+//!   (2b) every one of its first HDR_STEP bytes exactly one up and one down (count/index/length
+//!       fields become count+-1: the `>` vs `>=` mistakes),
+//!   (3) a seeded list of damaged copies (substitute 0x00/0xFF/bit flips/random/+-1, maximise
 //!       aligned and unaligned 2/4/8-byte windows and var-ints, plausible-but-large length
-//!       values, appended garbage, zero-filled tails, 1-3 of these combined),
+//!       values, appended garbage, zero-filled tails, bytes deleted / inserted in the middle,
+//!       the image once more behind itself, 1-3 of these combined),
 //! each with the expected-length argument equal to / below / above the truth where the API
 //! takes one.
 //!
@@ -25,6 +28,11 @@
 //!   crash:SIG..  / stack_overflow / hang (CPU budget or wall backstop exceeded); site = parser
 //! A run collects every finding of its cases and reports one of them (seeded pick), so a frequent
 //! finding does not hide a rare one in the same run for good.
+//!
+//! Sessions (`*/session`, `*/stream`): the "parser" is ONE reader object and a seeded script of
+//! calls that is carried on after every refused call (the property covers the calls made on an
+//! object after it returned Err), with every accessor of the reader called after every step.
+//! Stateful decoders (`&mut self`) are one object for all images of a run.
 
 use std::cell::RefCell;
 use std::collections::{BTreeMap, BTreeSet, HashMap, HashSet};
@@ -95,6 +103,10 @@ struct Family {
     ops: u64,
     /// expensive parser (tens of ms per call): truncations are tried with the true length argument only
     slow: bool,
+    /// how many leading bytes are each tried one up and one down (HDR_STEP; HDR_STEP_SLOW for expensive parsers;
+    /// 0 for the FSE frames: their first field is the unvalidated output size of a known finding, and every
+    /// step of its upper bytes is a 65 K .. 16 M symbol decode)
+    hdr: usize,
     prepare: Prep,
 }
 
@@ -135,7 +147,15 @@ fn trunc_points(n: usize) -> Vec<usize> {
     v
 }
 
-const KINDS: [&str; 12] = ["sub00", "subFF", "flip7", "rand", "flipbit", "maxwin", "maxwin_u", "bigwin", "maxvar", "append", "trunc", "zerotail"];
+const KINDS: [&str; 17] = ["sub00", "subFF", "flip7", "rand", "flipbit", "maxwin", "maxwin_u", "bigwin", "maxvar", "append", "trunc", "zerotail", "inc", "dec", "delete", "insert", "selfcat"];
+/// `CaseSpec::kind` of the intact image and of an enumerated truncation
+const K_INTACT: usize = KINDS.len();
+const K_TRUNC: usize = KINDS.len() + 1;
+/// ... and of an enumerated off-by-one step of a header byte
+const K_STEP: usize = KINDS.len() + 2;
+/// the first HDR_STEP bytes of every image are each tried one up and one down (expensive parsers: HDR_STEP_SLOW)
+const HDR_STEP: usize = 16;
+const HDR_STEP_SLOW: usize = 6;
 
 fn apply_one(v: &mut Vec<u8>, kind: usize, pos_raw: u64, aux: u64, val: u64) -> String {
     let n = v.len();
@@ -204,17 +224,54 @@ fn apply_one(v: &mut Vec<u8>, kind: usize, pos_raw: u64, aux: u64, val: u64) -> 
             v.truncate(pos);
             format!("trunc@{}", pos)
         }
-        _ => {
+        11 => {
             for b in v.iter_mut().skip(pos) {
                 *b = 0;
             }
             format!("zerotail@{}", pos)
         }
+        // off-by-one values: a count, index or length field becomes exactly one more / one less
+        12 | 13 => {
+            if n == 0 {
+                return format!("{}@-", KINDS[kind]);
+            }
+            v[pos] = if kind == 12 { v[pos].wrapping_add(1) } else { v[pos].wrapping_sub(1) };
+            format!("{}@{}", KINDS[kind], pos)
+        }
+        // bytes lost in the middle: everything behind them moves to lower offsets
+        14 => {
+            if n == 0 {
+                return "delete@-".to_string();
+            }
+            let k = (1 + (aux % 8) as usize).min(n - pos);
+            v.drain(pos..pos + k);
+            format!("delete{}@{}", k, pos)
+        }
+        // bytes gained in the middle (a duplicated chunk, zeros or ones): everything behind them moves up
+        15 => {
+            let k = 1 + (aux % 8) as usize;
+            let fill = (val % 3) as usize;
+            let ins: Vec<u8> = match fill {
+                0 => (0..k).map(|i| v.get(pos + i).copied().unwrap_or(0)).collect(),
+                1 => vec![0x00; k],
+                _ => vec![0xFF; k],
+            };
+            v.splice(pos..pos, ins);
+            format!("insert{}x{}@{}", k, ["dup", "00", "FF"][fill], pos)
+        }
+        // a second frame straight behind the first: the whole image (or its first `pos` bytes) once more
+        _ => {
+            let m = if aux % 2 == 0 { n } else { pos };
+            let head = v[..m].to_vec();
+            v.extend_from_slice(&head);
+            format!("selfcat{}", m)
+        }
     }
 }
 
-/// op = [a, b, c, d] (20 bits each): a = how many mutations, their kinds and the length
-/// argument; b = position; c = window/length choice; d = byte value / garbage seed.
+/// op = [a, b, c, d] (20 bits each): a = how many mutations (bits 0-2), their kinds (5 bits each,
+/// bits 3-17) and the length argument (bits 18-19); b = position; c = window/length choice;
+/// d = byte value / garbage seed.
 fn mutate(orig: &[u8], op: [u64; 4]) -> (Vec<u8>, String, usize, u64) {
     let [a, b, c, d] = op;
     let nsel = a & 7;
@@ -223,7 +280,7 @@ fn mutate(orig: &[u8], op: [u64; 4]) -> (Vec<u8>, String, usize, u64) {
     let mut desc = String::new();
     let mut first_kind = 0;
     for j in 0..nmut {
-        let kind = (((a >> (3 + 4 * j)) & 15) % 12) as usize;
+        let kind = (((a >> (3 + 5 * j)) & 31) % KINDS.len() as u64) as usize;
         if j == 0 {
             first_kind = kind;
         }
@@ -236,7 +293,7 @@ fn mutate(orig: &[u8], op: [u64; 4]) -> (Vec<u8>, String, usize, u64) {
         }
         desc.push_str(&apply_one(&mut v, kind, pos, aux, val));
     }
-    (v, desc, first_kind, (a >> 15) & 3)
+    (v, desc, first_kind, (a >> 18) & 3)
 }
 
 
@@ -419,12 +476,14 @@ fn coarse(target: &str) -> String {
 enum Img {
     Intact,
     Trunc(usize),
+    /// byte at this offset one up (true) / one down (false)
+    Step(usize, bool),
     Mut([u64; 4]),
 }
 
 struct CaseSpec {
     desc: String,
-    /// index into KINDS, or 12 = intact, 13 = truncation
+    /// index into KINDS, or K_INTACT, or K_TRUNC, or K_STEP
     kind: usize,
     img: Img,
     len: usize,
@@ -436,6 +495,7 @@ struct Plan {
     lens: Vec<(usize, &'static str)>,
     cases: Vec<CaseSpec>,
     n_trunc: usize,
+    n_step: usize,
     n_ops: u64,
     pick: usize,
 }
@@ -455,6 +515,12 @@ fn take_panic() -> (String, String) {
 
 thread_local! {
     static CHILD_PANIC: RefCell<Option<(String, String)>> = const { RefCell::new(None) };
+    /// what a session scenario does with each image (its fixed call script); printed once per run
+    static PLAN_NOTE: RefCell<String> = const { RefCell::new(String::new()) };
+}
+
+fn set_note(s: String) {
+    PLAN_NOTE.with(|n| *n.borrow_mut() = s);
 }
 
 /// Draw everything the run needs from the source, in a fixed order.
@@ -466,6 +532,7 @@ fn plan(src: &mut zsim_core::Source, fam: &Family, scratch: &Rc<Scratch>) -> Res
     }
     // drawn first so that nothing later shifts it: which of the run's distinct findings is reported
     let pick = cfg.below(1 << 16) as usize;
+    set_note(String::new());
     // zipora's FSE encoder prints debugging lines to stdout; stdout is where the driver (rehash, eval)
     // and the case-runner child report, so it is pointed at /dev/null while the encoder runs
     let prep = {
@@ -502,7 +569,7 @@ fn plan(src: &mut zsim_core::Source, fam: &Family, scratch: &Rc<Scratch>) -> Res
     let n = p.bytes.len();
     let lens: Vec<(usize, &'static str)> = match p.truth {
         Some(t) => {
-            let below = [t.saturating_sub(1), t / 2, 1.min(t)][cfg.below(3) as usize];
+            let below = [t.saturating_sub(1), t / 2, 1.min(t), 0][cfg.below(4) as usize];
             let above = [t + 1, t * 2 + 1, t + 1000][cfg.below(3) as usize];
             vec![(t, "eq"), (below, "below"), (above, "above")]
         }
@@ -511,16 +578,25 @@ fn plan(src: &mut zsim_core::Source, fam: &Family, scratch: &Rc<Scratch>) -> Res
     let mut cases = vec![];
     // (1) the intact encoding, every length argument
     for &(len, lab) in &lens {
-        cases.push(CaseSpec { desc: "intact".into(), kind: 12, img: Img::Intact, len, lab });
+        cases.push(CaseSpec { desc: "intact".into(), kind: K_INTACT, img: Img::Intact, len, lab });
     }
     // (2) every truncation (expensive parsers: with the true length argument only)
     let cuts = trunc_points(n);
     for &cut in &cuts {
         for &(len, lab) in lens.iter().take(if fam.slow { 1 } else { 3 }) {
-            cases.push(CaseSpec { desc: format!("trunc@{}", cut), kind: 13, img: Img::Trunc(cut), len, lab });
+            cases.push(CaseSpec { desc: format!("trunc@{}", cut), kind: K_TRUNC, img: Img::Trunc(cut), len, lab });
         }
     }
     let n_trunc = cases.len() - lens.len();
+    // (2b) count, index and length fields sit at the front: every one of the first bytes exactly one up
+    //      and exactly one down (a field becomes count, count+1, index-1 ...), with the true length argument
+    let hdr = n.min(fam.hdr);
+    for pos in 0..hdr {
+        for up in [true, false] {
+            cases.push(CaseSpec { desc: format!("{}@{}", if up { "inc" } else { "dec" }, pos), kind: K_STEP, img: Img::Step(pos, up), len: lens[0].0, lab: lens[0].1 });
+        }
+    }
+    let n_step = 2 * hdr;
     // (3) seeded damaged copies
     let mut ops = src.ops("ops", fam.ops);
     let mut n_ops = 0;
@@ -532,13 +608,18 @@ fn plan(src: &mut zsim_core::Source, fam: &Family, scratch: &Rc<Scratch>) -> Res
         }
         n_ops += 1;
     }
-    Ok(Plan { p, lens, cases, n_trunc, n_ops, pick })
+    Ok(Plan { p, lens, cases, n_trunc, n_step, n_ops, pick })
 }
 
 fn image(p: &Prepared, img: &Img) -> Vec<u8> {
     match img {
         Img::Intact => p.bytes.clone(),
         Img::Trunc(c) => p.bytes[..*c].to_vec(),
+        Img::Step(pos, up) => {
+            let mut v = p.bytes.clone();
+            v[*pos] = if *up { v[*pos].wrapping_add(1) } else { v[*pos].wrapping_sub(1) };
+            v
+        }
         Img::Mut(op) => mutate(&p.bytes, *op).0,
     }
 }
@@ -828,6 +909,10 @@ fn engine(cx: &mut Run, fam: &Family) {
     };
     let p = &pl.p;
     cx.ev(format!("{}: valid encoding of {} bytes, length args {:?}", p.target, p.bytes.len(), pl.lens));
+    let note = PLAN_NOTE.with(|n| n.borrow().clone());
+    if !note.is_empty() {
+        cx.ev(format!("each image gets: {}", note));
+    }
     let tapes = cx.src.tapes();
     let res = match run_cases_in_children(fam, cx.src.seed, &tapes, pl.cases.len(), p.bytes.len(), &scratch) {
         Some(r) => r,
@@ -842,7 +927,7 @@ fn engine(cx: &mut Run, fam: &Family) {
     let mut finds: BTreeMap<(String, String), (String, String, u64)> = BTreeMap::new();
     let (mut ok, mut err, mut npanic, mut ndied) = (0u64, 0u64, 0u64, 0u64);
     let (mut t_ok, mut t_err, mut t_bad) = (0u64, 0u64, 0u64);
-    let mut trunc_done = pl.n_trunc == 0;
+    let (mut s_ok, mut s_err, mut s_bad) = (0u64, 0u64, 0u64);
     let n_lens = pl.lens.len();
     for (i, c) in pl.cases.iter().enumerate() {
         let Some(r) = res.get(i) else { break };
@@ -871,7 +956,7 @@ fn engine(cx: &mut Run, fam: &Family) {
                 (format!("DIED {}", class), "died")
             }
         };
-        if c.kind == 13 {
+        if c.kind == K_TRUNC {
             // truncations: one summary line, plus a line for each of the first few failures
             match r {
                 Res::Ok => t_ok += 1,
@@ -890,12 +975,28 @@ fn engine(cx: &mut Run, fam: &Family) {
                 Res::Panic(..) => 4,
                 Res::Died(..) => 5,
             });
-        } else {
-            if !trunc_done && i >= n_lens + pl.n_trunc {
-                trunc_done = true;
+        } else if c.kind == K_STEP {
+            // header steps: summarised like the truncations
+            match r {
+                Res::Ok => s_ok += 1,
+                Res::Err => s_err += 1,
+                _ => {
+                    s_bad += 1;
+                    if s_bad <= 8 {
+                        cx.ev(format!("{} -> {}", what, outcome));
+                    }
+                }
             }
+            cx.trace.feed(match r {
+                Res::Ok if p.stable => 11,
+                Res::Err if p.stable => 12,
+                Res::Ok | Res::Err => 13,
+                Res::Panic(..) => 14,
+                Res::Died(..) => 15,
+            });
+        } else {
             cx.ev(format!("{} -> {}", what, outcome));
-            let kname = if c.kind == 12 { "intact" } else { KINDS[c.kind] };
+            let kname = if c.kind == K_INTACT { "intact" } else { KINDS[c.kind] };
             cx.cell(format!("{}/{}/{}", p.target, kname, cls));
         }
         if i + 1 == n_lens + pl.n_trunc && pl.n_trunc > 0 {
@@ -906,6 +1007,14 @@ fn engine(cx: &mut Run, fam: &Family) {
             }
             cx.cell(format!("{}/trunc/{}", p.target, if t_bad > 0 { "crashed" } else { "clean" }));
         }
+        if i + 1 == n_lens + pl.n_trunc + pl.n_step && pl.n_step > 0 {
+            if p.stable {
+                cx.ev(format!("header bytes one up / one down: {} cases (first {} bytes): ok={} err={} crashed={}", pl.n_step, pl.n_step / 2, s_ok, s_err, s_bad));
+            } else {
+                cx.ev(format!("header bytes one up / one down: {} cases (first {} bytes): no-crash={} crashed={}", pl.n_step, pl.n_step / 2, s_ok + s_err, s_bad));
+            }
+            cx.cell(format!("{}/hdrstep/{}", p.target, if s_bad > 0 { "crashed" } else if s_ok > 0 && s_err > 0 { "mixed" } else { "clean" }));
+        }
     }
     let executed = res.len() as u64;
     if res.len() < pl.cases.len() {
@@ -915,6 +1024,7 @@ fn engine(cx: &mut Run, fam: &Family) {
     cx.nontrivial = executed > n_lens as u64;
     cx.probe_n("cases", executed);
     cx.probe_n("truncation_cases", pl.n_trunc as u64);
+    cx.probe_n("header_step_cases", pl.n_step as u64);
     cx.probe_n("mutation_ops", pl.n_ops);
     if p.stable {
         cx.probe_n("cases_ok", ok);
@@ -1010,7 +1120,7 @@ fn payload_len(cfg: &Chan, lens: &[usize]) -> Vec<u8> {
 }
 
 fn payload(cfg: &Chan) -> Vec<u8> {
-    payload_len(cfg, &[1, 2, 3, 8, 17, 40, 64, 100, 101, 130, 257, 300, 700])
+    payload_len(cfg, &[1, 2, 3, 8, 17, 40, 64, 100, 101, 130, 257, 300, 700, 0, 128, 256])
 }
 
 fn es<E: std::fmt::Display>(e: E) -> String {
@@ -1312,7 +1422,7 @@ fn prep_huffman_interleaved(cfg: &Chan, _s: &Rc<Scratch>) -> Result<Prepared, St
 // FSE
 
 use zipora::compression::dict_zip::compression_types as pz;
-use zipora::entropy::fse::{fse_decompress, FseConfig, FseDecoder, FseEncoder};
+use zipora::entropy::fse::{fse_decompress, fse_decompress_with_config, fse_unzip, FseConfig, FseDecoder, FseEncoder};
 
 fn prep_fse(cfg: &Chan, _s: &Rc<Scratch>) -> Result<Prepared, String> {
     let which = cfg.below(5);
@@ -1326,22 +1436,32 @@ fn prep_fse(cfg: &Chan, _s: &Rc<Scratch>) -> Result<Prepared, String> {
     let data = payload_len(cfg, &[3, 40, 99, 100, 101, 130, 257, 300, 700]);
     let mut enc = FseEncoder::new(conf.clone()).map_err(es)?;
     let bytes = enc.compress(&data).map_err(es)?;
-    let via = cfg.below(2);
-    let target = format!("{}[{}]", if via == 0 { "FseDecoder::decompress" } else { "fse_decompress" }, cname);
+    let via = cfg.below(5);
+    let target = format!("{}[{}]", ["FseDecoder::decompress", "fse_decompress", "FseDecoder(reused)::decompress", "fse_decompress_with_config", "fse_unzip"][via as usize], cname);
+    // via 2: ONE decoder object decodes every image of the run, whatever the earlier calls returned
+    let shared = RefCell::new(FseDecoder::with_config(conf.clone()).map_err(es)?);
+    let calls = std::cell::Cell::new(0u32);
     Ok(Prepared {
         target,
         bytes,
         truth: None,
         stable: true,
-        decode: Box::new(move |b, _| {
-            if via == 0 {
-                match FseDecoder::with_config(conf.clone()) {
-                    Ok(mut d) => d.decompress(b).is_ok(),
-                    Err(_) => false,
+        decode: Box::new(move |b, _| match via {
+            0 => match FseDecoder::with_config(conf.clone()) {
+                Ok(mut d) => d.decompress(b).is_ok(),
+                Err(_) => false,
+            },
+            1 => fse_decompress(b).is_ok(),
+            2 => {
+                let mut d = shared.borrow_mut();
+                calls.set(calls.get() + 1);
+                if calls.get() % 4 == 0 {
+                    d.reset();
                 }
-            } else {
-                fse_decompress(b).is_ok()
+                d.decompress(b).is_ok()
             }
+            3 => fse_decompress_with_config(b, conf.clone()).is_ok(),
+            _ => fse_unzip(b).is_ok(),
         }),
     })
 }
@@ -1353,8 +1473,31 @@ fn prep_pz_fse(cfg: &Chan, _s: &Rc<Scratch>) -> Result<Prepared, String> {
         _ => (pz::FseConfig::fast_pa_zip(), "fast_pa_zip"),
     };
     let data = payload_len(cfg, &[3, 17, 31, 32, 40, 100, 130, 257, 300]);
-    let via = cfg.below(3);
+    let via = cfg.below(4);
     match via {
+        3 => {
+            // ONE compressor object decodes every image of the run (decompress takes &mut self)
+            let mut c = pz::FseCompressor::with_config(conf.clone()).map_err(es)?;
+            let bytes = c.compress(&data).map_err(es)?;
+            let c = RefCell::new(c);
+            let calls = std::cell::Cell::new(0u32);
+            Ok(Prepared {
+                target: format!("dict_zip::FseCompressor(reused)::decompress[{}]", cname),
+                bytes,
+                truth: None,
+                stable: true,
+                decode: Box::new(move |b, _| {
+                    let mut c = c.borrow_mut();
+                    calls.set(calls.get() + 1);
+                    if calls.get() % 4 == 0 {
+                        let _ = c.reset();
+                    }
+                    let ok = c.decompress(b).is_ok();
+                    let _ = c.stats().is_some();
+                    ok
+                }),
+            })
+        }
         0 => {
             let bytes = pz::apply_fse_compression(&data, &conf).map_err(es)?;
             Ok(Prepared { target: format!("remove_fse_compression[{}]", cname), bytes, truth: None, stable: true, decode: Box::new(move |b, _| pz::remove_fse_compression(b, &conf).is_ok()) })
@@ -1560,29 +1703,73 @@ fn prep_compressor(cfg: &Chan, _s: &Rc<Scratch>) -> Result<Prepared, String> {
 // ---------------------------------------------------------------------------------------
 // SIMD LZ77 and PA-Zip match streams
 
-use zipora::compression::simd_lz77::{SimdLz77Compressor, SimdLz77CompressorX2, SimdLz77Config};
+use zipora::compression::simd_lz77::{compress_with_simd_lz77, decompress_with_simd_lz77, SimdLz77Compressor, SimdLz77CompressorX1, SimdLz77CompressorX2, SimdLz77CompressorX4, SimdLz77CompressorX8, SimdLz77Config};
 
 fn prep_simd_lz77(cfg: &Chan, _s: &Rc<Scratch>) -> Result<Prepared, String> {
     let data = text_payload(cfg);
-    let which = cfg.below(4);
-    if which == 3 {
-        let mut c = SimdLz77CompressorX2::new().map_err(es)?;
-        let bytes = c.compress(&data).map_err(es)?;
-        let c = RefCell::new(c);
-        return Ok(Prepared { target: "SimdLz77CompressorX2::decompress".into(), bytes, truth: None, stable: true, decode: Box::new(move |b, _| c.borrow_mut().decompress(b).is_ok()) });
+    let which = cfg.below(9);
+    // every compressor object is REUSED for all images of the run (decompress takes &mut self)
+    macro_rules! fixed {
+        ($T:ident) => {{
+            let mut c = $T::new().map_err(es)?;
+            let bytes = c.compress(&data).map_err(es)?;
+            let c = RefCell::new(c);
+            return Ok(Prepared {
+                target: format!("{}::decompress", stringify!($T)),
+                bytes,
+                truth: None,
+                stable: true,
+                decode: Box::new(move |b, _| {
+                    let mut c = c.borrow_mut();
+                    let ok = c.decompress(b).is_ok();
+                    let _ = c.stats().compression_ratio();
+                    ok
+                }),
+            });
+        }};
+    }
+    match which {
+        3 => fixed!(SimdLz77CompressorX2),
+        4 => fixed!(SimdLz77CompressorX1),
+        5 => fixed!(SimdLz77CompressorX4),
+        6 => fixed!(SimdLz77CompressorX8),
+        7 => {
+            // the process-wide instance behind a Mutex
+            let bytes = compress_with_simd_lz77(&data).map_err(es)?;
+            return Ok(Prepared { target: "decompress_with_simd_lz77(global)".into(), bytes, truth: None, stable: true, decode: Box::new(move |b, _| decompress_with_simd_lz77(b).is_ok()) });
+        }
+        _ => {}
     }
     let (conf, cname) = match which {
         0 => (SimdLz77Config::default(), "default"),
         1 => (SimdLz77Config::low_latency(), "low_latency"),
-        _ => (SimdLz77Config::high_performance(), "high_performance"),
+        2 => (SimdLz77Config::high_performance(), "high_performance"),
+        _ => (SimdLz77Config::maximum_parallelism(), "maximum_parallelism"),
     };
     let mut c = SimdLz77Compressor::with_config(conf).map_err(es)?;
-    let bytes = c.compress(&data).map_err(es)?;
+    let bytes = if which == 8 { c.compress_with_dictionary(&data) } else { c.compress(&data) }.map_err(es)?;
     let c = RefCell::new(c);
-    Ok(Prepared { target: format!("SimdLz77Compressor::decompress[{}]", cname), bytes, truth: None, stable: true, decode: Box::new(move |b, _| c.borrow_mut().decompress(b).is_ok()) })
+    let calls = std::cell::Cell::new(0u32);
+    Ok(Prepared {
+        target: format!("SimdLz77Compressor::decompress[{}]", cname),
+        bytes,
+        truth: None,
+        stable: true,
+        decode: Box::new(move |b, _| {
+            let mut c = c.borrow_mut();
+            calls.set(calls.get() + 1);
+            if calls.get() % 5 == 0 {
+                c.reset_stats();
+            }
+            let ok = c.decompress(b).is_ok();
+            let st = c.stats();
+            let _ = (st.compression_ratio(), st.avg_decompression_throughput(), st.simd_acceleration_ratio());
+            ok
+        }),
+    })
 }
 
-fn prep_pz_matches(cfg: &Chan, _s: &Rc<Scratch>) -> Result<Prepared, String> {
+fn seeded_matches(cfg: &Chan) -> Vec<pz::Match> {
     let mut r = Rng::new(cfg.below(1 << 30));
     let k = 1 + cfg.below(12);
     let mut ms = vec![];
@@ -1601,6 +1788,11 @@ fn prep_pz_matches(cfg: &Chan, _s: &Rc<Scratch>) -> Result<Prepared, String> {
             ms.push(m);
         }
     }
+    ms
+}
+
+fn prep_pz_matches(cfg: &Chan, _s: &Rc<Scratch>) -> Result<Prepared, String> {
+    let ms = seeded_matches(cfg);
     let (bytes, _bits) = pz::encode_matches(&ms).map_err(es)?;
     let via = cfg.below(2);
     Ok(Prepared {
@@ -1652,14 +1844,26 @@ fn prep_pazip(cfg: &Chan, _s: &Rc<Scratch>) -> Result<Prepared, String> {
     let mut bytes = vec![];
     c.compress(&data, &mut bytes).map_err(es)?;
     let c = RefCell::new(c);
+    // the caller's output vector: fresh for every call, or ONE vector that keeps whatever the previous
+    // (possibly refused) call left in it
+    let keep_out = cfg.below(2) == 1;
+    let kept: RefCell<Vec<u8>> = RefCell::new(b"left over from an earlier call".to_vec());
     Ok(Prepared {
-        target: format!("PaZipCompressor::decompress[{}]", cname),
+        target: format!("PaZipCompressor::decompress[{}{}]", cname, if keep_out { ",out=reused" } else { "" }),
         bytes,
         truth: None,
         stable: true,
         decode: Box::new(move |b, _| {
-            let mut out = vec![];
-            c.borrow_mut().decompress(b, &mut out).is_ok()
+            let mut c = c.borrow_mut();
+            let ok = if keep_out {
+                let mut out = kept.borrow_mut();
+                c.decompress(b, &mut out).is_ok()
+            } else {
+                let mut out = vec![];
+                c.decompress(b, &mut out).is_ok()
+            };
+            let _ = (c.stats().bytes_processed, c.validate().is_ok());
+            ok
         }),
     })
 }
@@ -1673,6 +1877,9 @@ use zipora::blob_store::zip_offset::{ZipOffsetBlobStore, ZipOffsetBlobStoreConfi
 use zipora::memory::mmap_vec::{MmapVec, MmapVecConfig};
 
 fn read_zip_offset(s: &ZipOffsetBlobStore) {
+    use zipora::blob_store::traits::CompressedBlobStore;
+    let _ = (s.compression_ratio(0), s.compressed_size(0), s.compression_stats());
+    let _ = s.is_empty();
     let n = s.len();
     let _ = (s.memory_usage(), s.stats(), s.config().clone());
     for id in 0..(n.min(64) as u32 + 2) {
@@ -1683,10 +1890,11 @@ fn read_zip_offset(s: &ZipOffsetBlobStore) {
 }
 
 fn prep_zip_offset(cfg: &Chan, s: &Rc<Scratch>) -> Result<Prepared, String> {
-    let (conf, cname) = match cfg.below(3) {
+    let (conf, cname) = match cfg.below(4) {
         0 => (ZipOffsetBlobStoreConfig::default(), "default"),
         1 => (ZipOffsetBlobStoreConfig::performance_optimized(), "performance"),
-        _ => (ZipOffsetBlobStoreConfig::security_optimized(), "security"),
+        2 => (ZipOffsetBlobStoreConfig::security_optimized(), "security"),
+        _ => (ZipOffsetBlobStoreConfig::compression_optimized(), "compression"),
     };
     let store = ZipOffsetBlobStore::with_config(conf).map_err(es)?;
     let mut bytes = vec![];
@@ -1720,7 +1928,10 @@ fn prep_zip_offset(cfg: &Chan, s: &Rc<Scratch>) -> Result<Prepared, String> {
                 ZipOffsetBlobStore::load_from_reader(&mut Cursor::new(b))
             };
             match r {
-                Ok(st) => {
+                Ok(mut st) => {
+                    read_zip_offset(&st);
+                    // the same store once more through the sequential-access offset cache
+                    st.enable_offset_cache();
                     read_zip_offset(&st);
                     true
                 }
@@ -1763,13 +1974,27 @@ fn prep_reorder_map(cfg: &Chan, s: &Rc<Scratch>) -> Result<Prepared, String> {
                     // read the declared elements (capped: a damaged header may declare 10^17 of them)
                     let mut k = 0;
                     while k < 20_000 {
+                        // index() and current() are documented for "not at EOF" only
+                        if !m.eof() {
+                            let _ = (m.index(), m.current());
+                        }
                         if m.next().is_none() {
                             break;
                         }
+                        let _ = (m.len(), m.size_hint());
                         k += 1;
                     }
+                    // exhausted (or capped) iterator: asked again, then rewound, partly read, rewound again
+                    let _ = (m.next(), m.eof(), m.len());
                     if m.rewind().is_ok() {
-                        let _ = m.by_ref().take(100).count();
+                        let _ = m.by_ref().take(3).count();
+                        if !m.eof() {
+                            let _ = (m.index(), m.current());
+                        }
+                        if m.rewind().is_ok() {
+                            let _ = m.by_ref().take(100).count();
+                            let _ = (m.eof(), m.len(), m.size_hint());
+                        }
                     }
                     true
                 }
@@ -1816,6 +2041,38 @@ fn prep_mmap_vec(cfg: &Chan, s: &Rc<Scratch>) -> Result<Prepared, String> {
             acc = acc.wrapping_mul(31).wrapping_add(b as u64);
         }
         std::hint::black_box(acc);
+        let mut it = v.into_iter();
+        let _ = (it.len(), it.size_hint());
+        let mut cnt = 0usize;
+        for x in it.by_ref() {
+            std::hint::black_box(*x);
+            cnt += 1;
+        }
+        let _ = (cnt, it.len(), it.next().is_none());
+        let st = v.stats();
+        let _ = (st.memory_efficiency(), st.wasted_space(), st.needs_compaction(0.5));
+    }
+    /// an accepted image goes on being used as a vector (the file is the harness's scratch copy)
+    fn use_all<T: Copy + 'static>(v: &mut MmapVec<T>, fill: T) {
+        let _ = v.push(fill);
+        let _ = v.pop();
+        if let Some(x) = v.get_mut(0) {
+            *x = fill;
+        }
+        for x in v.as_mut_slice().iter_mut().take(4) {
+            *x = fill;
+        }
+        let _ = v.reserve(3);
+        let _ = v.extend([fill, fill, fill]);
+        let n = v.len();
+        let _ = v.truncate(n.saturating_sub(2));
+        let _ = v.resize(n.min(64) + 1, fill);
+        let _ = v.shrink_to_fit();
+        let _ = v.sync();
+        read_all(v);
+        let _ = v.clear();
+        let _ = v.push(fill);
+        read_all(v);
     }
     Ok(Prepared {
         target: format!("MmapVec<{}>::open[{}]", if wide { "u64" } else { "u32" }, if ro { "read_only" } else { "default" }),
@@ -1827,16 +2084,22 @@ fn prep_mmap_vec(cfg: &Chan, s: &Rc<Scratch>) -> Result<Prepared, String> {
             let c = if ro { MmapVecConfig::read_only() } else { MmapVecConfig::default() };
             if wide {
                 match MmapVec::<u64>::open(&p, c) {
-                    Ok(v) => {
+                    Ok(mut v) => {
                         read_all(&v);
+                        if !ro {
+                            use_all(&mut v, 0xC000_0000_0000_0001);
+                        }
                         true
                     }
                     Err(_) => false,
                 }
             } else {
                 match MmapVec::<u32>::open(&p, c) {
-                    Ok(v) => {
+                    Ok(mut v) => {
                         read_all(&v);
+                        if !ro {
+                            use_all(&mut v, 0xC000_0001);
+                        }
                         true
                     }
                     Err(_) => false,
@@ -1875,7 +2138,41 @@ fn seeded_u64s(cfg: &Chan) -> Vec<u64> {
 
 fn prep_var_int(cfg: &Chan, _s: &Rc<Scratch>) -> Result<Prepared, String> {
     let vals = seeded_u64s(cfg);
-    match cfg.below(5) {
+    match cfg.below(7) {
+        5 | 6 => {
+            // what a record reader does: decode at the cursor, advance by `consumed`; after a refusal
+            // resynchronise one byte further on and go on decoding the SAME buffer
+            let signed = cfg.below(2) == 1;
+            let bytes = if signed { vals.iter().flat_map(|&v| <VarInt as SignedVarInt>::encode_signed((v as i64).wrapping_neg())).collect() } else { VarInt::encode_multiple(vals.iter().copied()) };
+            Ok(Prepared {
+                target: format!("VarInt::{}(chained)", if signed { "decode_signed" } else { "decode" }),
+                bytes,
+                truth: None,
+                stable: true,
+                decode: Box::new(move |b, _| {
+                    let mut off = 0usize;
+                    let mut all = true;
+                    for _ in 0..200 {
+                        let Some(rest) = b.get(off..) else { break };
+                        if rest.is_empty() {
+                            break;
+                        }
+                        let r = if signed { <VarInt as SignedVarInt>::decode_signed(rest).map(|(v, n)| (v as u64, n)) } else { VarInt::decode(rest) };
+                        match r {
+                            Ok((v, used)) => {
+                                let _ = (VarInt::encoded_len(v), VarInt::fits_in_one_byte(v), VarInt::fits_in_two_bytes(v));
+                                off = off.saturating_add(used.max(1));
+                            }
+                            Err(_) => {
+                                all = false;
+                                off += 1;
+                            }
+                        }
+                    }
+                    all
+                }),
+            })
+        }
         0 => {
             let bytes = VarInt::encode(vals.first().copied().unwrap_or(300));
             Ok(Prepared { target: "VarInt::decode".into(), bytes, truth: None, stable: true, decode: Box::new(|b, _| VarInt::decode(b).is_ok()) })
@@ -1899,12 +2196,17 @@ fn prep_var_int(cfg: &Chan, _s: &Rc<Scratch>) -> Result<Prepared, String> {
                 decode: Box::new(|b, _| {
                     let mut i = SliceDataInput::new(b);
                     let mut ok = true;
-                    while i.has_more() {
+                    let mut guard = 0;
+                    // a refused read does not end the session: the reader is asked again (bounded)
+                    while i.has_more() && guard < 400 {
+                        guard += 1;
                         if VarInt::read_from(&mut i).is_err() {
                             ok = false;
-                            break;
                         }
+                        let _ = (i.pos(), i.remaining(), i.remaining_slice().len());
                     }
+                    let _ = VarInt::read_from(&mut i).is_err();
+                    let _ = (i.pos(), i.remaining(), i.remaining_slice().len());
                     ok
                 }),
             })
@@ -1919,11 +2221,17 @@ fn prep_var_int(cfg: &Chan, _s: &Rc<Scratch>) -> Result<Prepared, String> {
                 decode: Box::new(|b, _| {
                     let mut i = ReaderDataInput::new(Cursor::new(b));
                     let mut ok = true;
+                    let mut refused = 0;
                     for _ in 0..200 {
                         if i.read_var_int().is_err() {
                             ok = false;
-                            break;
+                            refused += 1;
+                            // asked again a few times after a refusal, then the session ends
+                            if refused > 3 {
+                                break;
+                            }
                         }
+                        let _ = i.pos();
                     }
                     ok
                 }),
@@ -1945,12 +2253,27 @@ fn prep_var_int_variants(cfg: &Chan, _s: &Rc<Scratch>) -> Result<Prepared, Strin
     let e = VarIntEncoder::new(st);
     let vals = seeded_u64s(cfg);
     let ivals: Vec<i64> = vals.iter().enumerate().map(|(i, &v)| if i % 2 == 0 { (v >> 1) as i64 } else { -((v >> 1) as i64) }).collect();
-    let form = cfg.below(4);
+    let form = cfg.below(6);
     let (bytes, fname): (Vec<u8>, &str) = match form {
         0 => (e.encode_u64(vals.first().copied().unwrap_or(5)).map_err(es)?, "decode_u64"),
         1 => (e.encode_i64(ivals.first().copied().unwrap_or(-5)).map_err(es)?, "decode_i64"),
         2 => (e.encode_u64_sequence(&vals).map_err(es)?, "decode_u64_sequence"),
-        _ => (e.encode_i64_sequence(&ivals).map_err(es)?, "decode_i64_sequence"),
+        3 => (e.encode_i64_sequence(&ivals).map_err(es)?, "decode_i64_sequence"),
+        // single values back to back, read with decode_*64 + `consumed`, going on after a refusal
+        4 => {
+            let mut v = vec![];
+            for &x in vals.iter().take(9) {
+                v.extend(e.encode_u64(x).map_err(es)?);
+            }
+            (v, "decode_u64(chained)")
+        }
+        _ => {
+            let mut v = vec![];
+            for &x in ivals.iter().take(9) {
+                v.extend(e.encode_i64(x).map_err(es)?);
+            }
+            (v, "decode_i64(chained)")
+        }
     };
     Ok(Prepared {
         target: format!("VarIntEncoder[{}]::{}", sname, fname),
@@ -1961,7 +2284,26 @@ fn prep_var_int_variants(cfg: &Chan, _s: &Rc<Scratch>) -> Result<Prepared, Strin
             0 => e.decode_u64(b).is_ok(),
             1 => e.decode_i64(b).is_ok(),
             2 => e.decode_u64_sequence(b).is_ok(),
-            _ => e.decode_i64_sequence(b).is_ok(),
+            3 => e.decode_i64_sequence(b).is_ok(),
+            _ => {
+                let mut off = 0usize;
+                let mut all = true;
+                for _ in 0..100 {
+                    let Some(rest) = b.get(off..) else { break };
+                    if rest.is_empty() {
+                        break;
+                    }
+                    let used = if form == 4 { e.decode_u64(rest).map(|x| x.1) } else { e.decode_i64(rest).map(|x| x.1) };
+                    match used {
+                        Ok(n) => off = off.saturating_add(n.max(1)),
+                        Err(_) => {
+                            all = false;
+                            off += 1;
+                        }
+                    }
+                }
+                all
+            }
         }),
     })
 }
@@ -2032,16 +2374,21 @@ fn prep_data_input(cfg: &Chan, s: &Rc<Scratch>) -> Result<Prepared, String> {
     })
 }
 
-fn complex_case<T: ComplexSerialize + 'static>(cfg: &Chan, tname: &str, v: T) -> Result<Prepared, String> {
-    let (conf, cname) = match cfg.below(3) {
+fn complex_case<T: ComplexSerialize + Clone + 'static>(cfg: &Chan, tname: &str, v: T) -> Result<Prepared, String> {
+    let (conf, cname) = match cfg.below(5) {
         0 => (ComplexTypeConfig::new(), "metadata"),
         1 => (ComplexTypeConfig::fast(), "fast"),
-        _ => (ComplexTypeConfig::compatible(), "compatible"),
+        2 => (ComplexTypeConfig::compatible(), "compatible"),
+        3 => (ComplexTypeConfig::safe(), "safe"),
+        _ => (ComplexTypeConfig::compact(), "compact"),
     };
     let ser = ComplexTypeSerializer::new(conf);
-    if cfg.below(4) == 0 {
-        let bytes = ser.serialize_batch(std::slice::from_ref(&v)).map_err(es)?;
-        return Ok(Prepared { target: format!("ComplexTypeSerializer[{}]::deserialize_batch<{}>", cname, tname), bytes, truth: None, stable: true, decode: Box::new(move |b, _| ser.deserialize_batch::<T>(b).is_ok()) });
+    if cfg.below(3) == 0 {
+        // 0 values (no metadata at all), 1, or several copies behind one count field
+        let nb = *cfg.pick(&[1usize, 2, 3, 0]);
+        let vs: Vec<T> = (0..nb).map(|_| v.clone()).collect();
+        let bytes = ser.serialize_batch(&vs).map_err(es)?;
+        return Ok(Prepared { target: format!("ComplexTypeSerializer[{}]::deserialize_batch<{}>[n={}]", cname, tname, nb), bytes, truth: None, stable: true, decode: Box::new(move |b, _| ser.deserialize_batch::<T>(b).is_ok()) });
     }
     let bytes = ser.serialize_to_bytes(&v).map_err(es)?;
     Ok(Prepared { target: format!("ComplexTypeSerializer[{}]::deserialize_from_bytes<{}>", cname, tname), bytes, truth: None, stable: true, decode: Box::new(move |b, _| ser.deserialize_from_bytes::<T>(b).is_ok()) })
@@ -2071,10 +2418,11 @@ fn prep_complex(cfg: &Chan, _s: &Rc<Scratch>) -> Result<Prepared, String> {
 }
 
 fn prep_smart_ptr(cfg: &Chan, _s: &Rc<Scratch>) -> Result<Prepared, String> {
-    let (conf, cname) = match cfg.below(3) {
+    let (conf, cname) = match cfg.below(4) {
         0 => (SmartPtrConfig::new(), "default"),
         1 => (SmartPtrConfig::performance_optimized(), "performance"),
-        _ => (SmartPtrConfig::space_optimized(), "space"),
+        2 => (SmartPtrConfig::space_optimized(), "space"),
+        _ => (SmartPtrConfig::robust(), "robust"),
     };
     let ser = SmartPtrSerializer::new(conf);
     let mut r = Rng::new(cfg.below(1 << 30));
@@ -2151,32 +2499,519 @@ fn prep_base64(cfg: &Chan, _s: &Rc<Scratch>) -> Result<Prepared, String> {
 }
 
 // ---------------------------------------------------------------------------------------
+// sessions: ONE reader / decoder object and a fixed script of calls that GOES ON after every
+// refused call.  "Returns a value or an error, never a crash" holds for the calls made on the
+// same object after an Err as well; every truncation length makes a different call of the
+// script the first refused one, and everything behind it runs on an object that has refused.
+
+use zipora::io::{from_file, from_reader, from_slice, DeserializationContext, NestedSerialize, SerializableType, SerializationContext, SmartPtrSerialize};
+
+#[derive(Clone, Copy, Debug)]
+enum InOp {
+    U8,
+    U16,
+    U32,
+    U64,
+    Var,
+    VarStatic,
+    LpBytes,
+    LpString,
+    Bytes(usize),
+    Vec(usize),
+    Str(usize),
+    Skip(usize),
+    /// a length read from the input itself, then skip(length) - how a reader steps over a field it does not know
+    SkipLp,
+    /// a length read from the input itself, then read_vec(length)
+    VecLp,
+    /// skip / read_vec / read_bytes of (what is left + d) bytes: just inside, exactly at and just beyond the end
+    SkipRel(i64),
+    VecRel(i64),
+    BytesRel(i64),
+}
+
+/// every accessor of the cursor, folded (so that nothing is optimised away)
+trait Obs: DataInput {
+    fn observe(&self) -> u64;
+    fn rem(&self) -> Option<usize>;
+}
+
+fn fold_slice(s: &[u8]) -> u64 {
+    (s.len() as u64) ^ ((s.first().copied().unwrap_or(0) as u64) << 32) ^ ((s.last().copied().unwrap_or(0) as u64) << 40)
+}
+
+impl<'a> Obs for SliceDataInput<'a> {
+    fn observe(&self) -> u64 {
+        let a = (self.pos() as u64) ^ ((self.remaining() as u64) << 16) ^ ((self.has_more() as u64) << 48);
+        let b = self.position().unwrap_or(0) ^ ((self.has_remaining().unwrap_or(false) as u64) << 50);
+        a ^ b ^ fold_slice(self.remaining_slice())
+    }
+    fn rem(&self) -> Option<usize> {
+        Some(self.remaining())
+    }
+}
+
+impl Obs for MmapDataInput {
+    fn observe(&self) -> u64 {
+        let a = (self.pos() as u64) ^ ((self.remaining() as u64) << 16) ^ ((self.is_empty() as u64) << 48) ^ ((self.len() as u64) << 8);
+        let b = self.position().unwrap_or(0) ^ ((self.has_remaining().unwrap_or(false) as u64) << 50);
+        a ^ b ^ fold_slice(self.remaining_slice()) ^ fold_slice(self.as_slice())
+    }
+    fn rem(&self) -> Option<usize> {
+        Some(self.remaining())
+    }
+}
+
+impl<R: std::io::Read> Obs for ReaderDataInput<R> {
+    fn observe(&self) -> u64 {
+        self.pos() ^ self.position().unwrap_or(0) ^ ((self.has_remaining().unwrap_or(false) as u64) << 50)
+    }
+    fn rem(&self) -> Option<usize> {
+        None
+    }
+}
+
+/// The whole script, whatever each call returns.  The verdict written into the trace: true = no call
+/// that has a field behind it in the valid record was refused (calls without one are bound to be refused
+/// somewhere; they are made all the same, they just do not count).
+fn run_in_script<I: Obs>(i: &mut I, script: &[(InOp, bool)]) -> bool {
+    let mut all = true;
+    let mut acc = i.observe();
+    for (op, backed) in script {
+        // beyond the end for a reader that cannot say what is left: more than its 8 KiB skip chunk and read_vec's 64 KiB chunk
+        let rel = |i: &I, d: i64| -> usize {
+            match i.rem() {
+                Some(r) => (r as i64 + d).max(0) as usize,
+                None => 70_000,
+            }
+        };
+        let ok = match *op {
+            InOp::U8 => i.read_u8().is_ok(),
+            InOp::U16 => i.read_u16().is_ok(),
+            InOp::U32 => i.read_u32().is_ok(),
+            InOp::U64 => i.read_u64().is_ok(),
+            InOp::Var => i.read_var_int().is_ok(),
+            InOp::VarStatic => VarInt::read_from(i).is_ok(),
+            InOp::LpBytes => i.read_length_prefixed_bytes().is_ok(),
+            InOp::LpString => i.read_length_prefixed_string().is_ok(),
+            InOp::Bytes(k) => {
+                let mut buf = vec![0u8; k];
+                i.read_bytes(&mut buf).is_ok()
+            }
+            InOp::Vec(k) => i.read_vec(k).is_ok(),
+            InOp::Str(k) => i.read_string(k).is_ok(),
+            InOp::Skip(k) => i.skip(k).is_ok(),
+            InOp::SkipLp => match i.read_var_int() {
+                Ok(n) => i.skip(n as usize).is_ok(),
+                Err(_) => false,
+            },
+            InOp::VecLp => match i.read_var_int() {
+                Ok(n) => i.read_vec(n as usize).is_ok(),
+                Err(_) => false,
+            },
+            InOp::SkipRel(d) => {
+                let n = rel(i, d);
+                i.skip(n).is_ok()
+            }
+            InOp::VecRel(d) => {
+                let n = rel(i, d);
+                i.read_vec(n).is_ok()
+            }
+            InOp::BytesRel(d) => {
+                let mut buf = vec![0u8; rel(i, d)];
+                i.read_bytes(&mut buf).is_ok()
+            }
+        };
+        all &= ok || !*backed;
+        acc = acc.wrapping_mul(31).wrapping_add(i.observe());
+    }
+    std::hint::black_box(acc);
+    all
+}
+
+fn prep_input_session(cfg: &Chan, s: &Rc<Scratch>) -> Result<Prepared, String> {
+    let mut r = Rng::new(cfg.below(1 << 30));
+    let n_ops = 3 + cfg.below(12) as usize;
+    let ks = [0usize, 1, 2, 3, 8, 33];
+    let ds = [-1i64, 0, 1, 7];
+    let mut script: Vec<(InOp, bool)> = vec![];
+    let mut o = VecDataOutput::new();
+    for _ in 0..n_ops {
+        let k = *cfg.pick(&ks);
+        let op = match cfg.below(20) {
+            0 => InOp::U8,
+            1 => InOp::U16,
+            2 => InOp::U32,
+            3 => InOp::U64,
+            4 => InOp::Var,
+            5 => InOp::VarStatic,
+            6 => InOp::LpBytes,
+            7 => InOp::LpString,
+            8 => InOp::Bytes(k),
+            9 => InOp::Vec(k),
+            10 => InOp::Str(k),
+            11 | 12 | 13 => InOp::Skip(k),
+            14 | 15 => InOp::SkipLp,
+            16 => InOp::VecLp,
+            17 => InOp::SkipRel(*cfg.pick(&ds)),
+            18 => InOp::VecRel(*cfg.pick(&ds)),
+            _ => InOp::BytesRel(*cfg.pick(&ds)),
+        };
+        // one call in six has no field behind it in the valid record: everything after it reads misaligned
+        let backed = (cfg.below(6) != 0 || script.len() < 2) && !matches!(op, InOp::SkipRel(_) | InOp::VecRel(_) | InOp::BytesRel(_));
+        script.push((op, backed));
+        if !backed {
+            continue;
+        }
+        let raw = |r: &mut Rng, k: usize| -> Vec<u8> { (0..k).map(|_| r.below(256) as u8).collect() };
+        match op {
+            InOp::U8 => o.write_u8(r.below(256) as u8),
+            InOp::U16 => o.write_u16(r.below(65536) as u16),
+            InOp::U32 => o.write_u32(r.below(1 << 32) as u32),
+            InOp::U64 => o.write_u64(r.next()),
+            InOp::Var | InOp::VarStatic => o.write_var_int(r.next() >> r.below(64)),
+            InOp::LpBytes => o.write_length_prefixed_bytes(&raw(&mut r, k)),
+            InOp::LpString => {
+                let st: String = (0..k).map(|_| ['a', 'b', 'é', 'z', '0'][r.below(5) as usize]).collect();
+                o.write_length_prefixed_string(&st)
+            }
+            InOp::Bytes(k) | InOp::Vec(k) | InOp::Skip(k) => o.write_bytes(&raw(&mut r, k)),
+            InOp::Str(k) => o.write_bytes(&(0..k).map(|_| b'a' + r.below(26) as u8).collect::<Vec<u8>>()),
+            InOp::SkipLp | InOp::VecLp => o.write_length_prefixed_bytes(&raw(&mut r, k)),
+            InOp::SkipRel(_) | InOp::VecRel(_) | InOp::BytesRel(_) => Ok(()),
+        }
+        .map_err(es)?;
+    }
+    let bytes = o.into_vec();
+    let via = cfg.below(7);
+    let vname = ["SliceDataInput::new", "from_slice", "ReaderDataInput::new(Cursor)", "from_reader(&[u8])", "MmapDataInput::open", "from_file", "SliceDataInput::new"][via as usize];
+    // two more calls behind the last field of the record
+    script.push((InOp::U8, false));
+    script.push((InOp::Skip(1), false));
+    set_note(format!(
+        "[{}] (~ = no field behind it in the valid record), observers (pos/remaining/remaining_slice/has_more/position/has_remaining/len/as_slice) after every call",
+        script.iter().map(|(op, b)| format!("{}{:?}", if *b { "" } else { "~" }, op)).collect::<Vec<_>>().join(", ")
+    ));
+    let sc = s.clone();
+    Ok(Prepared {
+        target: format!("{}::session", vname),
+        bytes,
+        truth: None,
+        stable: true,
+        decode: Box::new(move |b, _| match via {
+            0 | 6 => run_in_script(&mut SliceDataInput::new(b), &script),
+            1 => run_in_script(&mut from_slice(b), &script),
+            2 => {
+                let mut i = ReaderDataInput::new(Cursor::new(b));
+                let ok = run_in_script(&mut i, &script);
+                let _ = i.into_inner().position();
+                ok
+            }
+            3 => {
+                let mut i = from_reader(b);
+                let ok = run_in_script(&mut i, &script);
+                let _ = i.into_inner().len();
+                ok
+            }
+            _ => {
+                let p = sc.put("session_input.bin", b);
+                let opened = if via == 4 { MmapDataInput::open(&p) } else { from_file(&p) };
+                match opened {
+                    Ok(mut i) => run_in_script(&mut i, &script),
+                    Err(_) => false,
+                }
+            }
+        }),
+    })
+}
+
+// ---- PA-Zip BitReader: decode_match / read_bits on ONE reader, going on after a refusal
+
+#[derive(Clone, Copy, Debug)]
+enum BrOp {
+    Match,
+    Bits(u8),
+    Has(u8),
+}
+
+fn prep_bit_reader_session(cfg: &Chan, _s: &Rc<Scratch>) -> Result<Prepared, String> {
+    let ms = seeded_matches(cfg);
+    let (bytes, _bits) = pz::encode_matches(&ms).map_err(es)?;
+    let n_ops = 6 + cfg.below(26) as usize;
+    let widths = [0u8, 1, 2, 3, 5, 8, 13, 16, 24, 31, 32, 33, 64, 255];
+    let script: Vec<BrOp> = (0..n_ops)
+        .map(|_| match cfg.below(10) {
+            0..=4 => BrOp::Match,
+            5..=7 => BrOp::Bits(*cfg.pick(&widths)),
+            _ => BrOp::Has(*cfg.pick(&widths)),
+        })
+        .collect();
+    set_note(format!("{:?}, has_bits(1)/bit_position() after every call", script));
+    Ok(Prepared {
+        target: "compression_types::BitReader::session".into(),
+        bytes,
+        truth: None,
+        stable: true,
+        decode: Box::new(move |b, _| {
+            let mut rd = pz::BitReader::new(b);
+            let mut all = true;
+            let mut acc = 0u64;
+            for op in &script {
+                let data_left = rd.has_bits(3);
+                let ok = match *op {
+                    BrOp::Match => match pz::decode_match(&mut rd) {
+                        Ok((m, bits)) => {
+                            acc ^= (m.length() as u64) ^ ((m.distance() as u64) << 20) ^ ((pz::calculate_encoding_cost(&m) as u64) << 40) ^ bits as u64;
+                            let _ = m.validate().is_ok();
+                            true
+                        }
+                        Err(_) => false,
+                    },
+                    BrOp::Bits(n) => rd.read_bits(n).map(|v| acc ^= v as u64).is_ok(),
+                    BrOp::Has(n) => {
+                        acc ^= rd.has_bits(n) as u64;
+                        true
+                    }
+                };
+                // verdict for the trace: a record refused although there were bits left = malformed content seen
+                all &= ok || !data_left || !matches!(op, BrOp::Match);
+                acc = acc.wrapping_mul(31) ^ (rd.has_bits(1) as u64) ^ ((rd.bit_position() as u64) << 1);
+            }
+            std::hint::black_box(acc);
+            all
+        }),
+    })
+}
+
+// ---- smart pointers: a STREAM of pointers read with one shared DeserializationContext
+//      (back references to earlier objects), going on after a refused item
+
+#[derive(Clone, Copy, Debug)]
+enum PtrStep {
+    Strong,
+    Weak,
+    Clear,
+    Lookup(u32),
+}
+
+fn prep_smart_ptr_stream(cfg: &Chan, _s: &Rc<Scratch>) -> Result<Prepared, String> {
+    use std::rc::Weak as RcWeak;
+    use std::sync::Weak as ArcWeak;
+    let detect = cfg.below(4) != 0;
+    let mut r = Rng::new(cfg.below(1 << 30));
+    let pool_n = 1 + cfg.below(3) as usize;
+    let n_items = 2 + cfg.below(5) as usize;
+    // (which pooled object, 0 = strong / 1 = weak to a live object / 2 = dangling weak)
+    let items: Vec<(usize, u64)> = (0..n_items).map(|_| (cfg.below(pool_n as u64) as usize, [0, 0, 0, 1, 2][cfg.below(5) as usize])).collect();
+    let mut script: Vec<PtrStep> = items.iter().map(|&(_, f)| if f == 0 { PtrStep::Strong } else { PtrStep::Weak }).collect();
+    // look-ups and a clear() of the shared context somewhere in between; two more reads behind the last item
+    for _ in 0..cfg.below(3) {
+        let at = cfg.below(script.len() as u64 + 1) as usize;
+        script.insert(at, if cfg.below(3) == 0 { PtrStep::Clear } else { PtrStep::Lookup(cfg.below(5) as u32) });
+    }
+    let n_backed = script.len();
+    script.push(PtrStep::Strong);
+    script.push(PtrStep::Weak);
+    let arc = cfg.below(2) == 1;
+    set_note(format!("{:?} on one input and one DeserializationContext, every step whatever the previous returned", script));
+    macro_rules! stream {
+        ($P:ident, $W:ident, $T:ty, $mk:expr, $name:expr) => {{
+            let pool: Vec<$P<$T>> = (0..pool_n).map(|k| $P::new($mk(k, &mut r))).collect();
+            let mut sctx = if detect { SerializationContext::new() } else { SerializationContext::without_cycle_detection() };
+            let mut o = VecDataOutput::new();
+            for &(pi, form) in &items {
+                match form {
+                    0 => <$P<$T> as SmartPtrSerialize<$T>>::serialize_with_context(&pool[pi], &mut o, &mut sctx),
+                    1 => <$W<$T> as SmartPtrSerialize<$T>>::serialize_with_context(&$P::downgrade(&pool[pi]), &mut o, &mut sctx),
+                    _ => <$W<$T> as SmartPtrSerialize<$T>>::serialize_with_context(&$W::new(), &mut o, &mut sctx),
+                }
+                .map_err(es)?;
+            }
+            let bytes = o.into_vec();
+            Ok(Prepared {
+                target: format!("{}::deserialize_with_context(stream)[{}]", $name, if detect { "shared" } else { "no-sharing" }),
+                bytes,
+                truth: None,
+                stable: true,
+                decode: Box::new(move |b, _| {
+                    let mut input = SliceDataInput::new(b);
+                    let mut ctx: DeserializationContext<$P<$T>> = DeserializationContext::new();
+                    let mut all = true;
+                    let mut acc = 0u64;
+                    for (k, st) in script.iter().enumerate() {
+                        let ok = match *st {
+                            PtrStep::Strong => match <$P<$T> as SmartPtrSerialize<$T>>::deserialize_with_context(&mut input, &mut ctx) {
+                                Ok(p) => {
+                                    acc ^= $P::strong_count(&p) as u64;
+                                    true
+                                }
+                                Err(_) => false,
+                            },
+                            PtrStep::Weak => match <$W<$T> as SmartPtrSerialize<$T>>::deserialize_with_context(&mut input, &mut DeserializationContext::new()) {
+                                Ok(w) => {
+                                    acc ^= w.upgrade().is_some() as u64;
+                                    true
+                                }
+                                Err(_) => false,
+                            },
+                            PtrStep::Clear => {
+                                ctx.clear();
+                                true
+                            }
+                            PtrStep::Lookup(id) => {
+                                acc ^= ctx.get_object(id).map(|p| $P::strong_count(p)).unwrap_or(0) as u64;
+                                true
+                            }
+                        };
+                        // verdict for the trace: the items of the valid stream (the two reads behind it do not count)
+                        all &= ok || k >= n_backed;
+                        acc = acc.wrapping_mul(31).wrapping_add(input.observe());
+                    }
+                    std::hint::black_box(acc);
+                    all
+                }),
+            })
+        }};
+    }
+    if arc {
+        stream!(Arc, ArcWeak, Vec<u32>, |k: usize, r: &mut Rng| -> Vec<u32> { (0..r.below(4)).map(|j| (k as u32) * 100 + j as u32).collect() }, "Arc<Vec<u32>>")
+    } else {
+        stream!(Rc, RcWeak, String, |k: usize, r: &mut Rng| -> String { (0..r.below(9)).map(|_| (b'a' + r.below(26) as u8) as char).chain(std::iter::once((b'0' + k as u8) as char)).collect() }, "Rc<String>")
+    }
+}
+
+// ---- complex types: several values of different types back to back in ONE input, read with the
+//      trait entry points (with metadata / nested with a depth / with an explicit version),
+//      going on after a refused value
+
+fn ct_write<T: ComplexSerialize>(v: &T, mode: u8, arg: u32, o: &mut VecDataOutput) {
+    // a value the writer itself refuses (depth beyond max_depth) leaves no bytes: the reader is misaligned from there on
+    let _ = match mode {
+        0 => v.serialize_with_metadata(o),
+        1 => v.serialize_nested(o, arg as usize),
+        _ => v.serialize_data(o),
+    };
+}
+
+fn ct_read<T: ComplexSerialize>(mode: u8, arg: u32, i: &mut SliceDataInput) -> bool {
+    match mode {
+        0 => T::deserialize_with_metadata(i).is_ok(),
+        1 => <T as NestedSerialize>::deserialize_nested(i, arg as usize).is_ok(),
+        _ => T::deserialize_with_version(i, arg).is_ok(),
+    }
+}
+
+type CtTuple12 = (u8, i8, u16, i16, u32, i32, u64, i64, bool, String, u8, u8);
+
+fn prep_complex_stream(cfg: &Chan, _s: &Rc<Scratch>) -> Result<Prepared, String> {
+    let mut r = Rng::new(cfg.below(1 << 30));
+    let n_items = 2 + cfg.below(5) as usize;
+    let names = ["()", "tuple12", "[i16;5]", "Option<bool>", "Result<i64,String>", "BTreeMap<i32,Vec<u8>>", "BTreeSet<String>", "Option<Vec<String>>", "[String;2]", "(Vec<u32>,Option<String>)"];
+    // (type, mode, depth or version)
+    let items: Vec<(u8, u8, u32)> = (0..n_items)
+        .map(|_| {
+            let mode = cfg.below(3) as u8;
+            let arg = if mode == 1 { *cfg.pick(&[0u32, 5, 1000, 1001]) } else { *cfg.pick(&[1u32, 1, 0, 2, u32::MAX]) };
+            (cfg.below(10) as u8, mode, arg)
+        })
+        .collect();
+    let mut st = |r: &mut Rng, max: u64| -> String { (0..r.below(max)).map(|_| (b'a' + r.below(26) as u8) as char).collect() };
+    let mut o = VecDataOutput::new();
+    for &(t, mode, arg) in &items {
+        let x = r.below(1 << 32);
+        match t {
+            0 => ct_write(&(), mode, arg, &mut o),
+            1 => {
+                let v: CtTuple12 = (x as u8, x as i8, x as u16, x as i16, x as u32, x as i32, x << 13, -(x as i64), x % 2 == 0, st(&mut r, 9), 7, 8);
+                ct_write(&v, mode, arg, &mut o)
+            }
+            2 => ct_write(&[x as i16, -1, 0, i16::MIN, 5], mode, arg, &mut o),
+            3 => ct_write(&(if x % 3 == 0 { None } else { Some(x % 2 == 0) }), mode, arg, &mut o),
+            4 => ct_write::<Result<i64, String>>(&(if x % 2 == 0 { Ok(-(x as i64)) } else { Err(st(&mut r, 9)) }), mode, arg, &mut o),
+            5 => ct_write(&BTreeMap::from([(x as i32, vec![1u8, 2, 3]), (-1, vec![]), (7, vec![x as u8])]), mode, arg, &mut o),
+            6 => ct_write(&BTreeSet::from([st(&mut r, 9), st(&mut r, 3), String::new()]), mode, arg, &mut o),
+            7 => ct_write(&(if x % 4 == 0 { None } else { Some(vec![st(&mut r, 9), String::new()]) }), mode, arg, &mut o),
+            8 => ct_write(&[st(&mut r, 9), st(&mut r, 20)], mode, arg, &mut o),
+            _ => ct_write(&(vec![x as u32, 2, 3], if x % 2 == 0 { Some(st(&mut r, 9)) } else { None }), mode, arg, &mut o),
+        }
+    }
+    let bytes = o.into_vec();
+    let mut script = items.clone();
+    let n_backed = script.len();
+    // two more values are asked for behind the last one
+    script.push((cfg.below(10) as u8, 0, 1));
+    script.push((cfg.below(10) as u8, 2, 1));
+    set_note(format!(
+        "{} on one SliceDataInput, every value whatever the previous returned",
+        script.iter().map(|&(t, m, a)| format!("{}{}", names[t as usize], match m { 0 => "+meta".to_string(), 1 => format!("+nested@{}", a), _ => format!("+v{}", a) })).collect::<Vec<_>>().join(", ")
+    ));
+    Ok(Prepared {
+        target: "ComplexSerialize::deserialize_*(stream)".into(),
+        bytes,
+        truth: None,
+        stable: true,
+        decode: Box::new(move |b, _| {
+            let mut i = SliceDataInput::new(b);
+            let mut all = true;
+            let mut acc = 0u64;
+            for (k, &(t, mode, arg)) in script.iter().enumerate() {
+                let ok = match t {
+                    0 => ct_read::<()>(mode, arg, &mut i),
+                    1 => ct_read::<CtTuple12>(mode, arg, &mut i),
+                    2 => ct_read::<[i16; 5]>(mode, arg, &mut i),
+                    3 => ct_read::<Option<bool>>(mode, arg, &mut i),
+                    4 => ct_read::<Result<i64, String>>(mode, arg, &mut i),
+                    5 => ct_read::<BTreeMap<i32, Vec<u8>>>(mode, arg, &mut i),
+                    6 => ct_read::<BTreeSet<String>>(mode, arg, &mut i),
+                    7 => ct_read::<Option<Vec<String>>>(mode, arg, &mut i),
+                    8 => ct_read::<[String; 2]>(mode, arg, &mut i),
+                    _ => ct_read::<(Vec<u32>, Option<String>)>(mode, arg, &mut i),
+                };
+                // verdict for the trace: the values of the valid stream (the two behind it do not count)
+                all &= ok || k >= n_backed;
+                acc = acc.wrapping_mul(31).wrapping_add(i.observe());
+            }
+            // and plain elements straight from the same input
+            let _ = (<u16 as SerializableType>::deserialize(&mut i).is_ok(), <String as SerializableType>::deserialize(&mut i).is_ok(), <Vec<i8> as SerializableType>::deserialize(&mut i).is_ok());
+            acc ^= i.observe();
+            std::hint::black_box(acc);
+            all
+        }),
+    })
+}
+
+// ---------------------------------------------------------------------------------------
 
 fn families() -> Vec<Family> {
     vec![
-        Family { name: "huffman/tree-deserialize", quick: 300, thorough: 18000, ops: 40, slow: false, prepare: prep_huffman_tree },
-        Family { name: "huffman/decode", quick: 300, thorough: 18000, ops: 40, slow: false, prepare: prep_huffman_decode },
-        Family { name: "huffman/contextual-deserialize", quick: 32, thorough: 1920, ops: 24, slow: false, prepare: prep_ctx_huffman_deser },
-        Family { name: "huffman/contextual-decode", quick: 120, thorough: 7200, ops: 32, slow: false, prepare: prep_ctx_huffman_decode },
-        Family { name: "huffman/interleaved-decode", quick: 24, thorough: 1440, ops: 8, slow: true, prepare: prep_huffman_interleaved },
-        Family { name: "fse/decompress", quick: 200, thorough: 12000, ops: 40, slow: false, prepare: prep_fse },
-        Family { name: "fse/dict_zip-wrappers", quick: 200, thorough: 12000, ops: 40, slow: false, prepare: prep_pz_fse },
-        Family { name: "rans/decode", quick: 300, thorough: 18000, ops: 40, slow: false, prepare: prep_rans },
-        Family { name: "dictionary/entropy", quick: 200, thorough: 12000, ops: 40, slow: false, prepare: prep_dictionary },
-        Family { name: "compressor/decompress", quick: 300, thorough: 18000, ops: 40, slow: false, prepare: prep_compressor },
-        Family { name: "simd_lz77/decompress", quick: 200, thorough: 12000, ops: 40, slow: false, prepare: prep_simd_lz77 },
-        Family { name: "pa_zip/match-stream", quick: 300, thorough: 18000, ops: 48, slow: false, prepare: prep_pz_matches },
-        Family { name: "pa_zip/decompress", quick: 150, thorough: 9000, ops: 48, slow: false, prepare: prep_pazip },
-        Family { name: "var_int/decode", quick: 400, thorough: 24000, ops: 48, slow: false, prepare: prep_var_int },
-        Family { name: "var_int_variants/decode", quick: 500, thorough: 30000, ops: 48, slow: false, prepare: prep_var_int_variants },
-        Family { name: "data_input/read", quick: 400, thorough: 24000, ops: 48, slow: false, prepare: prep_data_input },
-        Family { name: "complex_types/deserialize", quick: 500, thorough: 30000, ops: 48, slow: false, prepare: prep_complex },
-        Family { name: "smart_ptr/deserialize", quick: 400, thorough: 24000, ops: 48, slow: false, prepare: prep_smart_ptr },
-        Family { name: "hex/decode", quick: 200, thorough: 12000, ops: 32, slow: false, prepare: prep_hex },
-        Family { name: "base64/decode", quick: 200, thorough: 12000, ops: 32, slow: false, prepare: prep_base64 },
-        Family { name: "reorder_map/open", quick: 900, thorough: 54_000, ops: 40, slow: false, prepare: prep_reorder_map },
-        Family { name: "zip_offset/load", quick: 100, thorough: 6000, ops: 40, slow: false, prepare: prep_zip_offset },
-        Family { name: "mmap_vec/open", quick: 80, thorough: 4800, ops: 40, slow: false, prepare: prep_mmap_vec },
+        Family { name: "huffman/tree-deserialize", quick: 300, thorough: 18000, ops: 40, slow: false, hdr: HDR_STEP, prepare: prep_huffman_tree },
+        Family { name: "huffman/decode", quick: 300, thorough: 18000, ops: 40, slow: false, hdr: HDR_STEP, prepare: prep_huffman_decode },
+        Family { name: "huffman/contextual-deserialize", quick: 32, thorough: 1920, ops: 24, slow: false, hdr: HDR_STEP, prepare: prep_ctx_huffman_deser },
+        Family { name: "huffman/contextual-decode", quick: 120, thorough: 7200, ops: 32, slow: false, hdr: HDR_STEP, prepare: prep_ctx_huffman_decode },
+        Family { name: "huffman/interleaved-decode", quick: 24, thorough: 1440, ops: 8, slow: true, hdr: HDR_STEP_SLOW, prepare: prep_huffman_interleaved },
+        Family { name: "fse/decompress", quick: 200, thorough: 12000, ops: 40, slow: false, hdr: 0, prepare: prep_fse },
+        Family { name: "fse/dict_zip-wrappers", quick: 200, thorough: 12000, ops: 40, slow: false, hdr: 0, prepare: prep_pz_fse },
+        Family { name: "rans/decode", quick: 300, thorough: 18000, ops: 40, slow: false, hdr: HDR_STEP, prepare: prep_rans },
+        Family { name: "dictionary/entropy", quick: 200, thorough: 12000, ops: 40, slow: false, hdr: HDR_STEP, prepare: prep_dictionary },
+        Family { name: "compressor/decompress", quick: 300, thorough: 18000, ops: 40, slow: false, hdr: HDR_STEP, prepare: prep_compressor },
+        Family { name: "simd_lz77/decompress", quick: 200, thorough: 12000, ops: 40, slow: false, hdr: HDR_STEP, prepare: prep_simd_lz77 },
+        Family { name: "pa_zip/match-stream", quick: 300, thorough: 18000, ops: 48, slow: false, hdr: HDR_STEP, prepare: prep_pz_matches },
+        Family { name: "pa_zip/decompress", quick: 150, thorough: 9000, ops: 48, slow: false, hdr: HDR_STEP, prepare: prep_pazip },
+        Family { name: "var_int/decode", quick: 400, thorough: 24000, ops: 48, slow: false, hdr: HDR_STEP, prepare: prep_var_int },
+        Family { name: "var_int_variants/decode", quick: 500, thorough: 30000, ops: 48, slow: false, hdr: HDR_STEP, prepare: prep_var_int_variants },
+        Family { name: "data_input/read", quick: 400, thorough: 24000, ops: 48, slow: false, hdr: HDR_STEP, prepare: prep_data_input },
+        Family { name: "complex_types/deserialize", quick: 500, thorough: 30000, ops: 48, slow: false, hdr: HDR_STEP, prepare: prep_complex },
+        Family { name: "smart_ptr/deserialize", quick: 400, thorough: 24000, ops: 48, slow: false, hdr: HDR_STEP, prepare: prep_smart_ptr },
+        Family { name: "hex/decode", quick: 200, thorough: 12000, ops: 32, slow: false, hdr: HDR_STEP, prepare: prep_hex },
+        Family { name: "base64/decode", quick: 200, thorough: 12000, ops: 32, slow: false, hdr: HDR_STEP, prepare: prep_base64 },
+        Family { name: "reorder_map/open", quick: 900, thorough: 54_000, ops: 40, slow: false, hdr: HDR_STEP, prepare: prep_reorder_map },
+        Family { name: "zip_offset/load", quick: 100, thorough: 6000, ops: 40, slow: false, hdr: HDR_STEP, prepare: prep_zip_offset },
+        Family { name: "mmap_vec/open", quick: 80, thorough: 4800, ops: 40, slow: false, hdr: HDR_STEP, prepare: prep_mmap_vec },
+        // sessions: one object, a fixed call script that goes on after every refusal
+        Family { name: "data_input/session", quick: 400, thorough: 24000, ops: 48, slow: false, hdr: HDR_STEP, prepare: prep_input_session },
+        Family { name: "pa_zip/bit-reader-session", quick: 200, thorough: 12000, ops: 48, slow: false, hdr: HDR_STEP, prepare: prep_bit_reader_session },
+        Family { name: "smart_ptr/stream", quick: 250, thorough: 15000, ops: 48, slow: false, hdr: HDR_STEP, prepare: prep_smart_ptr_stream },
+        Family { name: "complex_types/stream", quick: 250, thorough: 15000, ops: 48, slow: false, hdr: HDR_STEP, prepare: prep_complex_stream },
     ]
 }
 
@@ -2189,8 +3024,12 @@ fn main() {
         "C15",
         "fault_enumeration",
         "per run: one parser, one valid encoding produced by the real encoder from a seeded value; EVERY truncation length of that image is tried (all lengths up to 4 KiB, then every 512-byte boundary +-1) \
-         and a seeded list of damaged copies (byte substitution, bit flips, maximised 2/4/8-byte windows and var-ints, plausible large lengths, appended garbage, zero tails, 1-3 combined), each with the \
-         expected-length argument equal/below/above the truth where the API takes one; which values and which non-truncation damages are tried is seeded search. \
+         every one of the first 16 bytes one up and one down (6 for the 35 ms-per-call interleaved decoder, none for the FSE frames), \
+         and a seeded list of damaged copies (byte substitution, bit flips, +-1, maximised 2/4/8-byte windows and var-ints, plausible large lengths, appended garbage, zero tails, bytes deleted or \
+         inserted in the middle, the image repeated behind itself, 1-3 combined), each with the \
+         expected-length argument equal/below (incl. 0)/above the truth where the API takes one; which values and which non-truncation damages are tried is seeded search. \
+         session scenarios (data_input/session, pa_zip/bit-reader-session, smart_ptr/stream, complex_types/stream): the parser under test is ONE reader object plus a seeded script of calls that is \
+         carried on after every refused call, with every accessor of the reader called after every step; stateful decoders (SIMD-LZ77, PA-Zip, FSE reused variants) are one object for all images of a run. \
          non-trivial = at least one damaged image was parsed; distinct = distinct hash of (parser, image size, per-case outcome trace)",
     );
     spec.assumptions = vec![
@@ -2201,6 +3040,8 @@ fn main() {
         "allocation: the 2 GiB address-space limit applies to the case-runner child; in addition a single request of >= 128 MiB made while parsing an image of at most a few hundred KiB is answered with failure straight away (ZstdCompressor's fixed 100 MB output bound passes)".into(),
         "time: one case may use 3 s (+ <1 s rounding) of CPU (RLIMIT_CPU) and 30 s of wall clock; beyond that it is a hang".into(),
         "after 2 process deaths in one run (or one hang) the remaining cases of that run are not executed".into(),
+        "sessions: a length a script passes to skip/read_vec/read_bytes is a small constant, what is left +-1/+7, or a var-int the same reader has just returned (a field being stepped over); ReaderDataInput is driven over in-memory readers only (no I/O faults)".into(),
+        "objects a loader accepted are used further (ZReorderMap iterated/rewound, ZipOffsetBlobStore read with and without its offset cache, a writable MmapVec pushed to, truncated, resized, cleared); index()/current() of ZReorderMap only while !eof() as documented".into(),
         "src/ffi/c_api.rs is compiled only under the non-default `ffi` feature and is not exercised; blob_store/sorted_uint_vec.rs has no byte loader".into(),
     ];
     spec.components = vec![
